@@ -75,6 +75,20 @@ def check(rep, ctx):
         rep.check(R_K, ok, construct=f"{mod}:{name}", stmt="@cache def " + name,
                   message=f"{name} is not decorated with functools.cache (resolved through kio._utils): every call would rebuild "
                           f"the plan, or a hand-rolled cache is in use", file=src.rel, line=fns[0].lineno if fns else 1)
+    if ctx.tier == "thorough":
+        from ..core import AnalysisError
+        from ..faults import explore_faults
+        R_X = rep.rule("C19-fault-paths", "thorough: with an I/O error injected at every read and write of every codec root, the "
+                       "error propagates unchanged and nothing that outlives the call has been mutated before it", floor=4000)
+        for direction in ("r", "w"):
+            out, st = explore_faults(ctx, "io", direction)
+            for codec, problems, limit in out:
+                if limit:
+                    raise AnalysisError(f"{getattr(codec, 'ref', codec)}: {problems[0]}")
+                rep.check(R_X, False, construct=getattr(codec, "ref", str(codec)), stmt="; ".join(problems)[:200], message="; ".join(problems),
+                          file=ctx.sm.require(codec.module).rel if ctx.sm.get(codec.module) else "", line=codec.node.lineno)
+            rep.count(R_X, st["fault_paths"], instance=f"fault-paths-{direction}")
+            rep.extra[f"fault_injection_{direction}"] = st
     rep.sample({"rule": "C19-captured", "mutations_seen": [e for e in eng["effects"] if e[1] == "mutate"][:5]})
     rep.extra.update(modules=SERIAL_MODULES)
     rep.trusted_base += ["functools.cache does not memoise exceptions and stores a result only after the call returns"]
